@@ -30,6 +30,10 @@ pub struct FileSpec {
     /// wrong hashes, wrong size) is inserted first; the real insert must replace it
     #[serde(default)]
     pub decoy_first: bool,
+    /// the stored path is a symbolic link to the content kept elsewhere (a
+    /// DISTDIR of links): every verdict is about the file the link leads to
+    #[serde(default)]
+    pub via_symlink: bool,
 }
 
 #[derive(Clone, Debug, Serialize, Deserialize)]
@@ -658,10 +662,22 @@ fn stored_model(sd: &SimDisk, name: &str) -> String {
     format!("{}/d/{}", sd.root().display(), name)
 }
 
-fn store(sd: &SimDisk, name: &str, data: &[u8]) {
+fn store(sd: &SimDisk, name: &str, data: &[u8], via_symlink: bool) {
     let p = stored(sd, name);
     if let Some(parent) = p.parent() {
         std::fs::create_dir_all(parent).unwrap_or_else(|e| panic!("SIM-HARNESS: mkdir: {}", e));
+    }
+    if via_symlink {
+        let real_dir = sd.root().join("real");
+        std::fs::create_dir_all(&real_dir).unwrap_or_else(|e| panic!("SIM-HARNESS: mkdir: {}", e));
+        let real = real_dir.join(format!("{:016x}", crate::rng::hash_str(name)));
+        std::fs::write(&real, data).unwrap_or_else(|e| panic!("SIM-HARNESS: write: {}", e));
+        if std::fs::symlink_metadata(&p).map(|m| m.file_type().is_symlink()).unwrap_or(false) {
+            return;
+        }
+        let _ = std::fs::remove_file(&p);
+        std::os::unix::fs::symlink(&real, &p).unwrap_or_else(|e| panic!("SIM-HARNESS: symlink: {}", e));
+        return;
     }
     std::fs::write(&p, data).unwrap_or_else(|e| panic!("SIM-HARNESS: write: {}", e));
 }
@@ -712,6 +728,7 @@ impl Property for C12 {
                     size: rng.chance(4, 5),
                     size_first: rng.chance(1, 3),
                     decoy_first: rng.chance(1, 3),
+                    via_symlink: rng.chance(1, 8),
                     name,
                 }
             })
@@ -775,7 +792,10 @@ impl Property for C12 {
             if has_raw(&f.name) {
                 ctx.probe("name-not-utf8");
             }
-            store(&sd, &f.name, &f.content);
+            store(&sd, &f.name, &f.content, f.via_symlink);
+            if f.via_symlink {
+                ctx.fault("stored_behind_symlink");
+            }
             ctx.step("store", f.content.len() as u64, model_is_patch(&f.name) as u64);
         }
         // the record, as the model sees it
@@ -908,7 +928,7 @@ impl Property for C12 {
                 // make the simulated disk and the record in memory reflect the model
                 for (i, fsp) in sc.files.iter().enumerate() {
                     match &disk[i] {
-                        Some(c) => store(&sd, &fsp.name, c),
+                        Some(c) => store(&sd, &fsp.name, c, fsp.via_symlink),
                         None => {
                             let _ = std::fs::remove_file(stored(&sd, &fsp.name));
                         }
